@@ -144,7 +144,6 @@ def parse_assumptions(log):
     cur = None
     mode = None
     for l in log.splitlines():
-        m = re.match(r'\s*"?ASSUMPTIONS ([A-Za-z0-9_\']+)"?', l.strip().replace('= ', ''))
         if 'ASSUMPTIONS ' in l:
             mm = re.search(r'ASSUMPTIONS ([A-Za-z0-9_\']+)', l)
             cur = mm.group(1); res[cur] = []; mode = None; continue
@@ -155,9 +154,12 @@ def parse_assumptions(log):
         elif l.startswith("Axioms:"):
             mode = "ax"
         elif mode == "ax":
-            mm = re.match(r'^([A-Za-z0-9_\.\']+)\s*:', l)
+            # an axiom name starts in column 0; its type may start on the same line or (long types) on the next, indented
+            mm = re.match(r'^([A-Za-z_][A-Za-z0-9_\.\']*)\s*(:|$)', l)
             if mm:
                 res[cur].append(mm.group(1))
+            elif l and not l[0].isspace():
+                mode = None
     return res
 
 
